@@ -40,6 +40,8 @@ def program():
         F(7, "default", T("set", T("string")), "ss"), F(8, "default", T("map", T("string"), T("MIn")), "sm"),
         F(9, "default", T("map", T("i32"), T("i32")), "im"), F(10, "default", T("map", T("bool"), T("i32")), "bm"),
         F(11, "default", T("TdList"), "tl"), F(12, "optional", T("MIn"), "o"), F(13, "required", T("list", T("i32")), "rl"),
+        F(14, "default", T("map", T("byte"), T("i32")), "bym"), F(15, "default", T("map", T("i64"), T("MIn")), "lm"),
+        F(16, "default", T("map", T("i16"), T("i32")), "hm"),
         F(64, "default", T("i32"), "far")]}
     td = {"k": "typedef", "name": "TdList", "type": T("list", T("i32"))}
     return {"files": [{"path": "a.thrift", "namespaces": [{"lang": "go", "name": "mk"}], "defs": [td, mi, root]}]}
@@ -65,11 +67,14 @@ def value(k):
         "tl": {"l": [a("i32:%d" % (30 + i)) for i in range(k)]},
         "o": ({"nil": True} if k % 2 == 0 and k != 4 else min_(5, "o", 6)),
         "rl": {"l": [a("i32:%d" % (40 + i)) for i in range(k)]},
+        "bym": {"m": [[a("i8:%d" % (i + 1)), a("i32:%d" % (81 + i))] for i in range(k)]},
+        "lm": {"m": [[a("i64:%d" % (i + 1)), min_(90 + i, None, 95 + i)] for i in range(k)]},
+        "hm": {"m": [[a("i16:%d" % (i + 1)), a("i32:%d" % (85 + i))] for i in range(k)]},
         "far": a("i32:64")}}
 
 
 FID = {"s": 1, "rs": 2, "rin": 3, "n": 4, "li": 5, "ls": 6, "ss": 7, "sm": 8, "im": 9, "bm": 10, "tl": 11, "o": 12,
-       "rl": 13, "far": 64, "x": 1, "y": 2, "z": 3}
+       "rl": 13, "bym": 14, "lm": 15, "hm": 16, "far": 64, "x": 1, "y": 2, "z": 3}
 
 
 def path(s):
@@ -92,7 +97,8 @@ def path(s):
 
 ALPHABET = ['$.s', '$.rs', '$.rin', '$.rin.x', '$.n', '$.n.x', '$.n.y', '$.li', '$.li[5]', '$.li[*]', '$.ls[0].x', '$.ls[*].x',
             '$.ls[1].y', '$.ss[0]', '$.ss[1]', '$.sm{"k1"}', '$.sm{"k2"}.x', '$.sm{"zz"}', '$.sm{*}.x', '$.im{1}', '$.im{2}',
-            '$.im{9}', '$.im{*}', '$.bm', '$.bm{*}', '$.tl[1]', '$.o', '$.o.x', '$.far', '$.rl']
+            '$.im{9}', '$.im{*}', '$.bm', '$.bm{*}', '$.tl[1]', '$.o', '$.o.x', '$.far', '$.rl',
+            '$.bym{1}', '$.bym{2}', '$.lm{1}.x', '$.lm{2}', '$.hm{1}']
 GROUPS = [['$.li[0]', '$.li[1]', '$.li[2]', '$.li[3]'], ['$.ls[0]', '$.ls[1]', '$.ls[2]', '$.ls[3]'],
           ['$.rl[0]', '$.rl[1]', '$.rl[2]', '$.rl[3]'], ['$.ss[0]', '$.ss[2]', '$.ss[3]'], ['$.im{1}', '$.im{3}', '$.im{4}']]
 
